@@ -7,6 +7,7 @@
 From Coq Require Import ZArith List Bool.
 From Coq.Strings Require Import Byte.
 From TS Require Import Bytes State Prog Ops Interp NopSpec StackLemmas MerkleSpec TapeLemmas Builders MerkleTree MerkleTreeProofs AuthSpec.
+From TS Require TreeBuilders TreeBuildersProofs.
 Import ListNotations.
 Local Open Scope nat_scope.
 
@@ -67,6 +68,33 @@ Example C04_committed_branch_demo : exists w st,
   run_auth_scripts Demo.orc Demo.cfg (2 * 2 + S 3) [w; lock Demo.H Demo.l Demo.r] [] = AuthVerdict true st.
 Proof. exact Demo.demo_true. Qed.
 
+(* ---------------- the two builder functions (model/TreeBuilders.v, tied to make_merklized_script_prioritized / _balanced by the
+   TB correspondence; proofs/TreeBuildersProofs.v).  Every input script is a committed leaf at a known path and depth, the
+   builders return its unlocking script at its index, and that script + the lock runs exactly the leaf (any number of
+   leaves; fillers of the balanced builder are arbitrary).  Closed statements printed by Check. *)
+Definition C04_prioritized_leaf_paths := @TreeBuildersProofs.prioritized_paths.
+Definition C04_prioritized_unlocks_are_in_input_order := @TreeBuildersProofs.prioritized_unlocks_spec.
+Definition C04_prioritized_builder_complete := @TreeBuildersProofs.builders_complete_prioritized.
+Definition C04_balanced_leaves_in_order_same_depth := @TreeBuildersProofs.balanced_leaves.
+Definition C04_balanced_depth_is_log2_up := TreeBuildersProofs.bal_depth_log2_up.
+Definition C04_balanced_unlocks_are_in_input_order := @TreeBuildersProofs.balanced_unlocks_spec.
+Definition C04_balanced_builder_complete := @TreeBuildersProofs.builders_complete_balanced.
+Definition C04_growing_a_prioritized_tree_keeps_old_leaves := (@TreeBuildersProofs.prioritized_onto_old, @TreeBuildersProofs.prioritized_onto_new).
+Definition C04_one_leaf_filler_is_refused := @TreeBuildersProofs.prioritized_filler_rejects.
+Check C04_prioritized_leaf_paths.
+Check C04_prioritized_builder_complete.
+Check C04_balanced_leaves_in_order_same_depth.
+Check C04_balanced_builder_complete.
+
+Print Assumptions C04_prioritized_leaf_paths.
+Print Assumptions C04_prioritized_unlocks_are_in_input_order.
+Print Assumptions C04_prioritized_builder_complete.
+Print Assumptions C04_balanced_leaves_in_order_same_depth.
+Print Assumptions C04_balanced_depth_is_log2_up.
+Print Assumptions C04_balanced_unlocks_are_in_input_order.
+Print Assumptions C04_balanced_builder_complete.
+Print Assumptions C04_growing_a_prioritized_tree_keeps_old_leaves.
+Print Assumptions C04_one_leaf_filler_is_refused.
 Print Assumptions C04_committed_branch_runs.
 Print Assumptions C04_uncommitted_pair_never_starts.
 Print Assumptions C04_pack_unpack.
